@@ -822,6 +822,46 @@ func (h *hist) insertMany(t *tinfo, g *gen, op Op) {
 	if h.viol != nil {
 		return
 	}
+	// one batch in eight ends with a row repeating the unique key of a stored
+	// one: the server refuses the whole COPY when it is flushed, and
+	// InsertMany must say so
+	if op.Miss && h.tx == nil && len(t.Uniques) > 0 && nBefore > 0 && len(rows) > 0 {
+		u := t.Uniques[op.Arg%len(t.Uniques)]
+		src := t.rows[op.Pick%nBefore]
+		ok := true
+		for _, fname := range u {
+			if c := t.Column(fname); c != nil && c.Nullable {
+				ok = false
+			}
+		}
+		if ok {
+			last := rows[len(rows)-1]
+			for _, fname := range u {
+				last.FieldByName(fname).Set(src.FieldByName(fname))
+			}
+			tx, err := h.sdb.Begin()
+			if err != nil {
+				if h.faultedAny() {
+					return
+				}
+				kernel.Harnessf("begin: %v", err)
+			}
+			args := append([]reflect.Value{reflect.ValueOf(tx)}, rows...)
+			h.extraHeld = 1
+			_, err = h.call(name, f, args...)
+			h.extraHeld = 0
+			h.note("%s(%d rows, the last one repeats the unique key %v of a stored row) -> err=%v", name, len(rows), u, err)
+			tx.Rollback()
+			if h.faultedAny() {
+				return
+			}
+			if err == nil {
+				h.fail("refused_batch_not_reported", "%s: the last row of the batch repeats the unique key %v of a stored row, the server refuses the COPY, yet InsertMany returned no error", name, u)
+			}
+			h.out.Keys = append(h.out.Keys, "@call:insertmany-refused/"+t.Name)
+			return
+		}
+	}
 	if h.tx != nil {
 		// part of the open transaction, which decides its fate
 		args := append([]reflect.Value{h.db()}, rows...)
@@ -855,7 +895,15 @@ func (h *hist) insertMany(t *tinfo, g *gen, op Op) {
 		h.judgeErr(name, err)
 		return
 	}
-	if op.Commit {
+	// InsertMany returned no error: whatever fired during the call, every row of
+	// the batch must be stored once the transaction is committed (a fault
+	// excuses an error, not a silent loss)
+	firedDuringCall := h.srv.FaultedSinceReset()
+	if firedDuringCall {
+		h.srv.ResetFaultFlag()
+		h.out.Probe("fault_without_error:call_judged")
+	}
+	if op.Commit || firedDuringCall {
 		cerr := tx.Commit()
 		h.note("commit -> %v", cerr)
 		if h.faultedAny() {
@@ -867,6 +915,9 @@ func (h *hist) insertMany(t *tinfo, g *gen, op Op) {
 		}
 		t.rows = append(t.rows, rows...)
 		h.out.Keys = append(h.out.Keys, fmt.Sprintf("@call:insertmany-commit/%s/%d", t.Name, len(rows)))
+		if firedDuringCall {
+			h.checkOne(t)
+		}
 	} else {
 		tx.Rollback()
 		h.note("rollback")
